@@ -256,12 +256,24 @@ def hier(w, k, share, deep, thru):
     return dc.run(_t6(w, k, share, deep, thru))
 
 
+def _t8(w):
+    """two internal bundle instances of ONE type, each on one bundle port of the same child (and of a second child, swapped)"""
+    B = BundleDef("B", [("x", w), ("y", 1)])
+    cell = Ext("Cell", [("a", w), ("b", 1)])
+    two = Mod("TwoB", ports=[("g", 1)], buns=[("p", B, True), ("q", B, True)], insts=[
+        Inst("u", cell, {"a": BRef("p", ("x",)), "b": BRef("q", ("y",))}),
+        Inst("v", cell, {"a": BRef("q", ("x",)), "b": BRef("p", ("y",))})])
+    return Mod("Top", ports=[("t", 1)], buns=[("ba", B, False), ("bb", B, False), ("bc", B, False)], insts=[
+        Inst("i", two, {"p": Bun("ba"), "q": Bun("bb"), "g": Sig("t")}),
+        Inst("j", two, {"p": Bun("bb"), "q": Bun("bc"), "g": BRef("ba", ("y",))})])
+
+
 # ------------------------------------------------------------------ T7 construction styles
-@harness("C01", also=("C06", "C11"), args="style: int, which: int, w: int", pre=["0 <= style <= 5", "0 <= which <= 4", "1 <= w <= 2"],
-         tiers={"quick": {"timeout": 170, "parts": parts_over("style", range(6))},
-                "thorough": {"timeout": 600, "parts": parts_product(parts_over("style", range(6)), parts_over("which", range(5)))}},
+@harness("C01", also=("C06", "C11"), args="style: int, which: int, w: int", pre=["0 <= style <= 6", "0 <= which <= 5", "1 <= w <= 2"],
+         tiers={"quick": {"timeout": 170, "parts": parts_over("style", range(7))},
+                "thorough": {"timeout": 600, "parts": parts_product(parts_over("style", range(7)), parts_over("which", range(6)))}},
          sample=(1, 0, 2),
-         bounds="procedural (connect()), procedural (attribute assignment), class-body with call syntax, inside a generator, anonymous bundles in dict shorthand, every bundle instance flipped - each on 5 mixed designs (slices+port refs, bundles, arrays, hierarchy); w<=2",
+         bounds="procedural (connect()), procedural (attribute assignment), class-body with call syntax, inside a generator, anonymous bundles in dict shorthand, every bundle instance flipped, bundle instances made as copies (n * B(), flipped(flipped(b))) - each on 6 mixed designs (slices+port refs, bundles, two bundles of one type on two ports, arrays, hierarchy); w<=2",
          generalises="width; style/design selectors", outside="")
 def styles(style, which, w):
     if which == 0:
@@ -272,7 +284,9 @@ def styles(style, which, w):
         top = _t4(2, w, 1, 1)
     elif which == 3:
         top = _t6(w, 0, True, False, True)
-    else:
+    elif which == 4:
         top = _t3(4, 5, w)
-    st = ("proc", "proc", "class", "gen", "proc", "proc")[style]
-    return dc.run(top, style=st, setattr_conns=(style == 1), dict_anon=(style == 4), flip=(style == 5))
+    else:
+        top = _t8(w)
+    st = ("proc", "proc", "class", "gen", "proc", "proc", "proc")[style]
+    return dc.run(top, style=st, setattr_conns=(style == 1), dict_anon=(style == 4), flip=(style == 5), copies=(style == 6))
